@@ -100,32 +100,38 @@ func (p *stmtFakePool) Get(context.Context) (backend.PooledConnect, error) {
 	p.b.mu.Unlock()
 	return &stmtFakeConn{b: p.b}, nil
 }
-func (p *stmtFakePool) GetCheck(ctx context.Context) (backend.PooledConnect, error) { return p.Get(ctx) }
-func (p *stmtFakePool) Put(backend.PooledConnect)                                    {}
-func (p *stmtFakePool) SetCapacity(int) error                                        { return nil }
-func (p *stmtFakePool) SetIdleTimeout(time.Duration)                                 {}
-func (p *stmtFakePool) StatsJSON() string                                            { return "{}" }
-func (p *stmtFakePool) Capacity() int64                                              { return 8 }
-func (p *stmtFakePool) Available() int64                                             { return 8 }
-func (p *stmtFakePool) Active() int64                                                { return 0 }
-func (p *stmtFakePool) InUse() int64                                                 { return 0 }
-func (p *stmtFakePool) MaxCap() int64                                                { return 8 }
-func (p *stmtFakePool) WaitCount() int64                                             { return 0 }
-func (p *stmtFakePool) WaitTime() time.Duration                                      { return 0 }
-func (p *stmtFakePool) IdleTimeout() time.Duration                                   { return 0 }
-func (p *stmtFakePool) IdleClosed() int64                                            { return 0 }
-func (p *stmtFakePool) SetLastChecked()                                              {}
-func (p *stmtFakePool) GetLastChecked() int64                                        { return 0 }
+func (p *stmtFakePool) GetCheck(ctx context.Context) (backend.PooledConnect, error) {
+	return p.Get(ctx)
+}
+func (p *stmtFakePool) Put(backend.PooledConnect)    {}
+func (p *stmtFakePool) SetCapacity(int) error        { return nil }
+func (p *stmtFakePool) SetIdleTimeout(time.Duration) {}
+func (p *stmtFakePool) StatsJSON() string            { return "{}" }
+func (p *stmtFakePool) Capacity() int64              { return 8 }
+func (p *stmtFakePool) Available() int64             { return 8 }
+func (p *stmtFakePool) Active() int64                { return 0 }
+func (p *stmtFakePool) InUse() int64                 { return 0 }
+func (p *stmtFakePool) MaxCap() int64                { return 8 }
+func (p *stmtFakePool) WaitCount() int64             { return 0 }
+func (p *stmtFakePool) WaitTime() time.Duration      { return 0 }
+func (p *stmtFakePool) IdleTimeout() time.Duration   { return 0 }
+func (p *stmtFakePool) IdleClosed() int64            { return 0 }
+func (p *stmtFakePool) SetLastChecked()              {}
+func (p *stmtFakePool) GetLastChecked() int64        { return 0 }
 
 // ---------------------------------------------------------------- client side sink
 
 type stmtSinkConn struct{ written int }
 
-func (s *stmtSinkConn) Read(b []byte) (int, error)       { return 0, fmt.Errorf("verif: sink") }
-func (s *stmtSinkConn) Write(b []byte) (int, error)      { s.written += len(b); return len(b), nil }
-func (s *stmtSinkConn) Close() error                     { return nil }
-func (s *stmtSinkConn) LocalAddr() net.Addr              { return &net.TCPAddr{IP: net.IPv4(127, 0, 0, 1), Port: 13306} }
-func (s *stmtSinkConn) RemoteAddr() net.Addr             { return &net.TCPAddr{IP: net.IPv4(127, 0, 0, 1), Port: 40000} }
+func (s *stmtSinkConn) Read(b []byte) (int, error)  { return 0, fmt.Errorf("verif: sink") }
+func (s *stmtSinkConn) Write(b []byte) (int, error) { s.written += len(b); return len(b), nil }
+func (s *stmtSinkConn) Close() error                { return nil }
+func (s *stmtSinkConn) LocalAddr() net.Addr {
+	return &net.TCPAddr{IP: net.IPv4(127, 0, 0, 1), Port: 13306}
+}
+func (s *stmtSinkConn) RemoteAddr() net.Addr {
+	return &net.TCPAddr{IP: net.IPv4(127, 0, 0, 1), Port: 40000}
+}
 func (s *stmtSinkConn) SetDeadline(time.Time) error      { return nil }
 func (s *stmtSinkConn) SetReadDeadline(time.Time) error  { return nil }
 func (s *stmtSinkConn) SetWriteDeadline(time.Time) error { return nil }
@@ -154,8 +160,16 @@ const stmtNsCfg = `{
 }`
 
 type stmtFixture struct {
-	mgr *Manager
-	be  *stmtBackend
+	mgr    *Manager
+	be     *stmtBackend
+	logDir string
+}
+
+// cleanup removes the scratch log directory of the statistic manager (call at the end of a test)
+func (f *stmtFixture) cleanup() {
+	if f.logDir != "" {
+		os.RemoveAll(f.logDir)
+	}
 }
 
 var stmtFix *stmtFixture
@@ -204,7 +218,7 @@ func stmtGetFixture() (*stmtFixture, error) {
 		return nil, err
 	}
 	m.users[current] = um
-	stmtFix = &stmtFixture{mgr: m, be: be}
+	stmtFix = &stmtFixture{mgr: m, be: be, logDir: logDir}
 	return stmtFix, nil
 }
 
@@ -252,4 +266,3 @@ func respClass(r Response) (string, string) {
 	}
 	return fmt.Sprintf("resp%d", r.RespType), ""
 }
-
